@@ -38,6 +38,7 @@ Act(e, d) ==
       [] e.op = "cancel" -> Cancel(e.s, e.p, e.o)
       [] e.op = "expire" -> Expire(e.s, e.p, e.o)
       [] e.op = "drain"  -> Drain
+      [] e.op = "stranger" -> Stranger(e.o)
       [] e.op = "read"   -> Read(e.s)
       [] e.op = "tick"   -> Tick(e.v)
       [] e.op = "wpv"    -> WritePV(e.o, e.v)
@@ -50,6 +51,7 @@ Ghost(e) ==
       [] e.op = "cancel" -> G_Cancel(e.s, e.p, e.o)
       [] e.op = "expire" -> G_Expire(e.s, e.p, e.o)
       [] e.op = "drain"  -> G_Drain
+      [] e.op = "stranger" -> G_Stranger(e.o)
       [] e.op = "read"   -> G_Read(e.s)
       [] e.op = "tick"   -> G_Tick(e.v)
       [] e.op = "wpv"    -> G_WritePV(e.o, e.v)
